@@ -1,11 +1,14 @@
 package codex
 
 import (
+	"errors"
 	"io"
 	"net"
 	"time"
 
 	"github.com/creack/pty"
+
+	"hop.computer/hop/tubes"
 )
 
 // C11 / C18 — execution-request and window-size codecs.
@@ -115,4 +118,76 @@ func VH_C18_winsize_roundtrip() {
 	if err == nil {
 		verifAssert(*got == *size, "C18: window size round-trips")
 	}
+}
+
+// ---- exec status (SendSuccess / SendFailure -> getStatus) ----
+//
+// getStatus takes the concrete tube type; its Read / Write are replaced by a
+// finite symbolic stream and a recorder.
+
+var c11Tube struct {
+	in  []byte
+	off int
+	out []byte
+}
+
+func c11RelRead(t *tubes.Reliable, p []byte) (int, error) {
+	if c11Tube.off >= len(c11Tube.in) {
+		return 0, io.EOF
+	}
+	n := copy(p, c11Tube.in[c11Tube.off:])
+	c11Tube.off += n
+	return n, nil
+}
+
+func c11RelWrite(t *tubes.Reliable, p []byte) (int, error) {
+	c11Tube.out = append(c11Tube.out, p...)
+	return len(p), nil
+}
+
+// The client's status reader on whatever the server's tube delivers: returns,
+// and never allocates more than the 16-bit length field can announce.
+//
+//verif:prop C11
+//verif:replay none
+//verif:stub (*hop.computer/hop/tubes.Reliable).Read = c11RelRead
+//verif:bounds stream of n symbolic bytes, n picked from {0,1,2,5,6,9} (EOF after n); allocation limit 64 KiB
+//verif:cover returned
+func VH_C11_getStatus_total_and_bounded_alloc() {
+	n := verifPick("streamlen", 0, 1, 2, 5, 6, 9)
+	c11Tube.in, c11Tube.off = verifBytes("stream", n), 0
+	verifAllocLimit(65536)
+	_ = getStatus(&tubes.Reliable{})
+	verifCover("returned")
+}
+
+// What SendFailure / SendSuccess write is what getStatus reads back.
+//
+//verif:prop C18
+//verif:replay none
+//verif:stub (*hop.computer/hop/tubes.Reliable).Read = c11RelRead
+//verif:stub (*hop.computer/hop/tubes.Reliable).Write = c11RelWrite
+//verif:bounds success, or failure with an error text of length {0,1,255,256,300} and symbolic bytes
+//verif:cover success;failure
+func VH_C18_exec_status_roundtrip() {
+	c11Tube.out = nil
+	t := &tubes.Reliable{}
+	if verifBool("success") {
+		SendSuccess(t)
+		c11Tube.in, c11Tube.off = c11Tube.out, 0
+		verifAssert(getStatus(t) == nil, "C18: a success status decodes as success")
+		verifCover("success")
+		return
+	}
+	n := verifPick("textlen", 0, 1, 255, 256, 300)
+	text := verifString("error-text", n)
+	SendFailure(t, errors.New(text))
+	c11Tube.in, c11Tube.off = c11Tube.out, 0
+	err := getStatus(t)
+	verifAssert(err != nil, "C18: a failure status decodes as a failure")
+	if err != nil {
+		verifAssertStrEq(err.Error(), text, "C18: the failure text round-trips")
+	}
+	verifAssert(c11Tube.off == len(c11Tube.in), "C18: getStatus consumes exactly what SendFailure wrote")
+	verifCover("failure")
 }
